@@ -68,27 +68,60 @@ def _term_size(t, cap=2000):
     return n
 
 
-def z3_slices(ob, steps=((0, 1000), (30, 3000), (60, 5000), (120, 8000))):
-    """Proof search with subsets of the hypotheses (only the hypotheses whose term size is <= K, for growing K).
-    Sound: an obligation proved from fewer hypotheses is proved.  Never used to refute (a model of a subset of the
-    hypotheses is not a counter-model).  Helps when many irrelevant nonlinear hypotheses drown z3's NRA."""
-    t0 = time.time()
-    sizes = [_term_size(h) for h in ob.hyps]
-    last = -1
-    for K, ms in steps:
-        hs = [h for h, sz in zip(ob.hyps, sizes) if sz <= K]
-        if len(hs) == last or len(hs) == len(ob.hyps):
-            if len(hs) == len(ob.hyps):
-                break
+def _uf_atoms(t):
+    out, seen, stack = set(), set(), [t]
+    while stack:
+        x = stack.pop()
+        if x.get_id() in seen:
             continue
-        last = len(hs)
+        seen.add(x.get_id())
+        if z3.is_app(x) and x.num_args() > 0 and x.decl().kind() == z3.Z3_OP_UNINTERPRETED:
+            out.add(x.get_id())
+        stack.extend(x.children())
+    return out
+
+
+def z3_slices(ob, steps=((0, 1000), (30, 3000), (60, 5000), (120, 8000)), levels=3, level_ms=4000, small=12):
+    """Proof search with subsets of the hypotheses.  Sound: an obligation proved from fewer hypotheses is proved.
+    Never used to refute (a model of a subset of the hypotheses is not a counter-model).  Helps when many irrelevant
+    nonlinear hypotheses drown z3's NRA.
+    1. relevance slices: hypotheses that share an uninterpreted application (sqrt(..), acos(..), ...) with the goal,
+       transitively to `levels` levels, plus all tiny hypotheses (bounds on inputs);
+    2. size slices: hypotheses whose term size is <= K, for growing K."""
+    t0 = time.time()
+    n = len(ob.hyps)
+    sizes = [_term_size(h) for h in ob.hyps]
+
+    def attempt(idx, ms):
         s = z3.Solver()
         s.set("timeout", ms)
-        for h in hs:
-            s.add(h)
+        for i in idx:
+            s.add(ob.hyps[i])
         s.add(z3.Not(ob.goal))
-        if s.check() == z3.unsat:
-            return "proved", time.time() - t0, "z3-slice<=%d(%d/%d hyps)" % (K, len(hs), len(ob.hyps))
+        return s.check() == z3.unsat
+    tried = set()
+    hat = [_uf_atoms(h) for h in ob.hyps]
+    cur = _uf_atoms(ob.goal)
+    sel = set(i for i, sz in enumerate(sizes) if sz <= small)
+    for lv in range(levels):
+        new = set(i for i, a in enumerate(hat) if a & cur)
+        sel |= new
+        for i in new:
+            cur |= hat[i]
+        key = frozenset(sel)
+        if key in tried or len(sel) == n:
+            continue
+        tried.add(key)
+        if attempt(sorted(sel), level_ms):
+            return "proved", time.time() - t0, "z3-slice:relevance%d(%d/%d hyps)" % (lv + 1, len(sel), n)
+    for K, ms in steps:
+        idx = [i for i, sz in enumerate(sizes) if sz <= K]
+        key = frozenset(idx)
+        if key in tried or len(idx) == n:
+            continue
+        tried.add(key)
+        if attempt(idx, ms):
+            return "proved", time.time() - t0, "z3-slice:size<=%d(%d/%d hyps)" % (K, len(idx), n)
     return "undecided", time.time() - t0, "no slice proves it"
 
 
